@@ -183,7 +183,7 @@ def r4(cx):
     rp = body.calls("=reply_parameters")
     okg = False
     if e:
-        r = cfg.reach(e[0][2])
+        r = cfg.after(e[0])
         tv = [t for t in body.calls("=to_value") if t.bb in r]
         for t in tv:
             f = []
